@@ -7,7 +7,7 @@ import Mathlib.Tactic.SplitIfs
 namespace Miden
 
 /-- A 64-bit value from its 32-bit limbs. -/
-def u64of (hi lo : Nat) : Nat := hi * two32 + lo
+@[reducible] def u64of (hi lo : Nat) : Nat := hi * two32 + lo
 
 /-- Symbolic execution of a stdlib span on `[x3, x2, x1, x0] ++ rest` with all limbs < 2^32 and
     at least 16 further elements below (so that no zero padding is involved). -/
